@@ -93,16 +93,34 @@ structure Env where
 inductive Special | ok | alt | rej
   deriving DecidableEq, Repr
 
-/-! ### SanityCheck: input count, output values -/
+/-! ### SanityCheck: inputs, output values -/
 
-/-- CheckTransactionInput (count part; duplicates are an oracle matter) -/
-def inputOK (c : Class) (env : Env) (nIn : Nat) : Bool :=
+/-- one transaction input: the previous output it references (`op` stands for the outpoint
+    txid:index, what `Input.ReferKey()` renders) and its Sequence -/
+structure In where
+  op : Nat
+  seq : Nat
+  deriving DecidableEq, Repr
+
+/-- the "duplicated transaction inputs" loop: a set keyed by `ReferKey()` — the outpoint
+    only, **not** the Sequence -/
+def noDup : List Nat → Bool
+  | [] => true
+  | x :: xs => !xs.contains x && noDup xs
+
+def inputsDistinct (ins : List In) : Bool := noDup (ins.map (·.op))
+
+/-- CheckTransactionInput of the class.  `Rev.fixed` includes
+    `fix: reject ActivateProducer transactions that reference a previous output more than once`. -/
+def inputOK (rev : Rev) (c : Class) (env : Env) (ins : List In) : Bool :=
   match c with
-  | .coinbase => nIn == 1
-  | .zero => nIn == 0
-  | .sidePow => true            -- new form: nIn = 0; old form: nIn ≥ 1
-  | .activate => env.afterNFT || nIn == 0
-  | _ => 1 ≤ nIn
+  | .coinbase => ins.length == 1
+  | .zero => ins.length == 0
+  | .sidePow => ins.length == 0 || inputsDistinct ins     -- new form: no inputs; old form: the default loop
+  | .activate =>
+      if env.afterNFT then (rev == .pre || inputsDistinct ins)   -- as found: no check at all
+      else ins.length == 0
+  | _ => 1 ≤ ins.length && inputsDistinct ins
 
 /-- the default loop: every value ≥ 0 -/
 def allNonneg (outs : List Fixed64) : Bool := outs.all (fun v => !(lt v 0))
@@ -142,9 +160,9 @@ def totalOK (outs : List Fixed64) : Bool := totalFrom 0 outs
 inductive San | ok | inn | out
   deriving DecidableEq, Repr
 
-def sanity (rev : Rev) (c : Class) (env : Env) (nIn : Nat) (outs : List Fixed64) : San :=
-  if !inputOK c env nIn then .inn
-  else if !outputOK c env nIn outs then .out
+def sanity (rev : Rev) (c : Class) (env : Env) (ins : List In) (outs : List Fixed64) : San :=
+  if !inputOK rev c env ins then .inn
+  else if !outputOK c env ins.length outs then .out
   else if rev == .fixed && !totalOK outs then .out
   else .ok
 
@@ -200,9 +218,14 @@ def Ctx.accepted : Ctx → Bool
   | .ok _ | .endd => true
   | _ => false
 
-/-- A transaction with `refs.length` inputs is accepted (mempool or block):
-    SanityCheck passes and ContextCheck passes. -/
-def accepts (rev : Rev) (c : Class) (env : Env) (sp : Special) (outs refs : List Fixed64) : Bool :=
-  sanity rev c env refs.length outs == .ok && (context c env sp outs refs).accepted
+/-- what `UTXOCache.GetTxReference` hands to the fee check: one entry **per input**
+    (`result[input]`, keyed by the input pointer), the previous output `val op` of each -/
+def refsOf (val : Nat → Fixed64) (ins : List In) : List Fixed64 := ins.map (fun i => val i.op)
+
+/-- A transaction is accepted (mempool or block): SanityCheck passes and ContextCheck passes.
+    `val` is the UTXO lookup (outpoint ↦ value of the previous output). -/
+def accepts (rev : Rev) (c : Class) (env : Env) (sp : Special) (val : Nat → Fixed64)
+    (ins : List In) (outs : List Fixed64) : Bool :=
+  sanity rev c env ins outs == .ok && (context c env sp outs (refsOf val ins)).accepted
 
 end ElaVerif.Fee
